@@ -68,7 +68,27 @@ func (e *typeEnv) mkNamed(path, name string, generic int) *types.Named {
 		return n
 	}
 	obj := types.NewTypeName(token.NoPos, e.pkg(path), name, nil)
-	n := types.NewNamed(obj, types.NewStruct(nil, nil), nil)
+	// what a defined type is defined as must not matter to how it is printed: the name says it all
+	var under types.Type = types.NewStruct(nil, nil)
+	switch name {
+	case "Ref":
+		under = types.NewPointer(types.NewStruct(nil, nil))
+	case "Handle":
+		under = types.NewPointer(types.Typ[types.Int])
+	case "Seq":
+		under = types.NewSlice(types.Typ[types.String])
+	case "Dict":
+		under = types.NewMap(types.Typ[types.String], types.Typ[types.Int])
+	case "Hook":
+		under = types.NewSignatureType(nil, nil, nil, nil, nil, false)
+	case "Pipe":
+		under = types.NewChan(types.SendRecv, types.Typ[types.Int])
+	case "Num":
+		under = types.Typ[types.Int64]
+	case "Quad":
+		under = types.NewArray(types.Typ[types.Int], 4)
+	}
+	n := types.NewNamed(obj, under, nil)
 	if generic > 0 {
 		var tps []*types.TypeParam
 		for i := 0; i < generic; i++ {
@@ -415,7 +435,7 @@ func genShape(r *Rng, depth int) TShape {
 	case 3:
 		return TShape{K: "any"}
 	case 4:
-		return TShape{K: "named", Path: Pick(r, c11Paths), Name: Pick(r, []string{"Item", "List", "Obj"})}
+		return TShape{K: "named", Path: Pick(r, c11Paths), Name: Pick(r, []string{"Item", "List", "Obj", "Item", "Ref", "Handle", "Seq", "Dict", "Hook", "Pipe", "Num", "Quad"})}
 	case 5:
 		k := 1 + r.Intn(2)
 		t := TShape{K: "named", Path: Pick(r, c11Paths), Name: fmt.Sprintf("Gen%d", k)}
@@ -443,7 +463,11 @@ func genShape(r *Rng, depth int) TShape {
 	case 8:
 		return TShape{K: "array", N: r.Intn(5), Args: []TShape{genShape(r, depth-1)}}
 	case 9:
-		return TShape{K: "map", Args: []TShape{genShape(r, 0), genShape(r, depth-1)}}
+		key := genShape(r, 0)
+		if key.K == "named" && (key.Name == "Seq" || key.Name == "Dict" || key.Name == "Hook") {
+			key.Name = "Ref" // a map key must be comparable
+		}
+		return TShape{K: "map", Args: []TShape{key, genShape(r, depth-1)}}
 	case 10:
 		return TShape{K: "chan", Args: []TShape{genShape(r, depth-1)}}
 	default:
@@ -487,6 +511,13 @@ var rfixtures = []rfixture{
 	{"v1.Item", reflect.TypeFor[fv1.Item](), fixturesMod + "/v1", "Item", nil},
 	{"v1.Kind", reflect.TypeFor[fv1.Kind](), fixturesMod + "/v1", "Kind", nil},
 	{"time.Duration", reflect.TypeFor[time.Duration](), "time", "Duration", nil},
+	{"util.ItemRef", reflect.TypeFor[futil.ItemRef](), fixturesMod + "/util", "ItemRef", nil},
+	{"util.Handle", reflect.TypeFor[futil.Handle](), fixturesMod + "/util", "Handle", nil},
+	{"util.Items", reflect.TypeFor[futil.Items](), fixturesMod + "/util", "Items", nil},
+	{"util.Index", reflect.TypeFor[futil.Index](), fixturesMod + "/util", "Index", nil},
+	{"util.Hook", reflect.TypeFor[futil.Hook](), fixturesMod + "/util", "Hook", nil},
+	{"util.Pipe", reflect.TypeFor[futil.Pipe](), fixturesMod + "/util", "Pipe", nil},
+	{"util.Quad", reflect.TypeFor[futil.Quad](), fixturesMod + "/util", "Quad", nil},
 	{"time.Time", reflect.TypeFor[time.Time](), "time", "Time", nil},
 	{"util.Gen1[int]", reflect.TypeFor[futil.Gen1[int]](), fixturesMod + "/util", "Gen1", []TShape{{K: "basic", Name: "int"}}},
 	{"util.Gen1[util2.Item]", reflect.TypeFor[futil.Gen1[futil2.Item]](), fixturesMod + "/util", "Gen1", []TShape{{K: "named", Path: fixturesMod + "/other/util", Name: "Item"}}},
